@@ -31,6 +31,8 @@
 //   * bind_front(f, lvalue) — any bound argument passed as an lvalue (unwrap_ref_decay<T&> is ill-formed); bound
 //     arguments are therefore always passed as rvalues (prvalue copies / std::move)
 //   * function_ref<R(Args...) noexcept> (the thunk lambda is not noexcept: invalid conversion)
+//   * inplace_function holding a member pointer (constructor constraint accepts it, the invoke thunk does not compile);
+//     inplace_function<void(Args...)> from a callable returning non-void (thunk returns a value from a void function)
 //   * stateless not_fn<f>(): its `static_assert(f != nullptr)` is not a constant expression under -fsanitize=undefined
 //     (the sanitizer build implies -fno-delete-null-pointer-checks), so it cannot be instantiated in this build
 //   * && / const&& calls of a bind_front wrapper whose bound argument is a reference_wrapper are left out on purpose
@@ -576,10 +578,17 @@ auto make_fref(T& target)
     }
 }
 
+// a function taking the wrapper by value, called with a temporary callable (the idiomatic use of function_ref)
+template <typename L, typename Sig>
+auto through_param(std::conditional_t<std::is_same_v<L, EtlLib>, etl::function_ref<Sig>, std::function<Sig>> f, TCM& a, TCM const& b, TCM&& c) -> int
+{
+    return f(a, b, std::move(c), 4);
+}
+
 void add_function_ref()
 {
     using Sig = int(TCM&, TCM const&, TCM&&, int);
-    add_family("fref.call", "function_ref", 7, 1, []<class L>(int x, int) {
+    add_family("fref.call", "function_ref", 8, 1, []<class L>(int x, int) {
         begin();
         Logger f{3};
         Logger const cf{4};
@@ -600,6 +609,7 @@ void add_function_ref()
         case 3: r = make_fref<L, Sig>(fp)(a, b, std::move(c), 4); break;
         case 4: r = make_fref<L, Sig>(lam)(a, b, std::move(c), 4); break;
         case 5: r = make_fref<L, Sig>(clam)(a, b, std::move(c), 4); break;
+        case 6: r = through_param<L, Sig>(Logger{8}, a, b, std::move(c)); break; // temporary callable: invoked as a non-const lvalue
         default: {
             auto const w = make_fref<L, Sig>(f); // const wrapper, called twice: two calls
             r            = w(a, b, std::move(c), 4) + w(a, b, TCM(5), 6);
@@ -920,6 +930,106 @@ void add_inplace_function_forwarding()
     });
 }
 
+// ------------------------------------------------------------------ compositions
+void add_compositions()
+{
+    add_family("bind_front.nested", "bind_front", 4, 1, []<class L>(int x, int) {
+        begin();
+        TCM a(1);
+        auto w = L::bind_front(L::bind_front(Logger{7}, 1), TCM(2));
+        int r  = call_as(x, w, a, 3);
+        return finish(r, type_name<decltype(w(a, 3))>());
+    });
+    add_family("not_fn.nested", "not_fn", 4, 1, []<class L>(int x, int) {
+        begin();
+        auto w = L::not_fn(L::not_fn(Logger{7}));
+        bool r = call_as_bool(x, w, TCM(1));
+        return finish(r ? 1 : 0, type_name<decltype(w(TCM(1)))>());
+    });
+    add_family("not_fn.of_bind_front", "not_fn", 4, 1, []<class L>(int x, int) {
+        begin();
+        auto w = L::not_fn(L::bind_front(Logger{0}, 0));
+        bool r = call_as_bool(x, w);
+        return finish(r ? 1 : 0, "bool");
+    });
+    add_family("apply.member_pointer", "invoke.member", 3, 1, []<class L>(int x, int) {
+        begin();
+        S s;
+        int r = 0;
+        std::string t;
+        switch (x) {
+        case 0: {
+            auto tup = L::make_tuple(&s, 1);
+            r        = L::apply(&S::m_plain, tup);
+            t        = type_name<decltype(L::apply(&S::m_plain, tup))>();
+            break;
+        }
+        case 1: {
+            // (make_tuple(ref(s), 2) with a class-type s is EXCLUDED: the leaf brace-initialises S& from a reference_wrapper)
+            int two  = 2;
+            auto tup = L::tie(s, two);
+            r        = L::apply(&S::m_plain, tup); // (an rvalue tuple of references is EXCLUDED, see C20_types.cpp)
+            break;
+        }
+        default: {
+            auto tup = L::forward_as_tuple(s);
+            using R  = decltype(L::apply(&S::v, tup));
+            R v      = L::apply(&S::v, tup);
+            r        = v + (&v == &s.v ? 1000 : 0);
+            t        = type_name<R>();
+            break;
+        }
+        }
+        return finish(r, t);
+    });
+    add_family("apply.logger_categories", "invoke.callable", 4, 1, []<class L>(int x, int) {
+        begin();
+        Logger f{2};
+        auto tup = L::make_tuple(TCM(1), 2);
+        int r    = 0;
+        switch (x) { // the callable's own category is forwarded, too
+        case 0: r = L::apply(f, tup); break;
+        case 1: r = L::apply(std::as_const(f), std::as_const(tup)); break;
+        case 2: r = L::apply(std::move(f), std::move(tup)); break;
+        default: r = L::apply(std::move(std::as_const(f)), std::move(std::as_const(tup))); break;
+        }
+        return finish(r, "int");
+    });
+    // inplace_function targets other than functors (a member pointer target is EXCLUDED: the invoke thunk uses call syntax)
+    add_family("ipf.targets", "inplace_function.forwarding", 4, 1, []<class L>(int x, int) {
+        begin();
+        int r        = 0;
+        int captured = 5;
+        switch (x) {
+        case 0: r = make_ipf<L, int(int)>(free_fn1)(1); break;
+        case 1: r = make_ipf<L, int(int)>(&free_fn1)(2); break;
+        case 2: {
+            auto w = make_ipf<L, int(int)>([&captured](int v) {
+                log_call("ref-capturing lambda", captured, "-");
+                ++captured;
+                return v + captured;
+            });
+            auto c = w; // copies share the referenced variable
+            r      = w(1) * 100 + c(1);
+            break;
+        }
+        default: {
+            auto w = make_ipf<L, int(int)>([captured](int v) mutable {
+                log_call("value-capturing mutable lambda", captured, "-");
+                ++captured;
+                return v + captured;
+            });
+            auto c = w; // copies own their capture
+            r      = w(1) * 10000 + w(1) * 100 + c(1);
+            break;
+        }
+        }
+        Out o;
+        o << finish(r, "int") << " captured=" << captured;
+        return o.s;
+    });
+}
+
 void build()
 {
     static bool done = false;
@@ -932,6 +1042,7 @@ void build()
     add_bind_front();
     add_not_fn();
     add_inplace_function_forwarding();
+    add_compositions();
 }
 
 } // namespace c20w
